@@ -845,7 +845,7 @@ def c09(tier):
 
 @check("C10")
 def c10(tier):
-    return broker_check("C10", tier, [("SessSpec", "cover", 6, 7, "mockSuccess"), ("Sess1Spec", "paths", 6, 7, "mockSuccess")], {"C10", "C01", "C07"},
+    return broker_check("C10", tier, [("SessSpec", "cover", 6, 7, "mockSuccess"), ("Sess1Spec", "paths", 6, 7, "mockSuccess"), ("Sess1LastSpec", "paths", 10, 12, "mockSuccess")], {"C10", "C01", "C07"},
                         "configuration session: connect (CleanSession 0/1) / subscribe / unsubscribe / DISCONNECT / cut over two client ids and two slots, probe "
                         "publishes; SessionPresent and deliveries to restored subscriptions compared.", frag_item=1)
 
@@ -1013,6 +1013,7 @@ def c05(tier):
     v = Verdict("C05", tier, level="fault_enumeration")
     thorough = tier == "thorough"
     faults_run(v, "C05", [("FALSE", "FALSE", "TRUE", 2 if not thorough else 3), ("TRUE", "FALSE", "TRUE", 2 if not thorough else 3),
+                          ("FALSE", "TRUE", "FALSE", 3 if not thorough else 4),
                           ("FALSE", "FALSE", "FALSE", 3 if not thorough else 4)])   # without attacker: sudden disconnects under load, bystanders must stay served
     # the gated race of a delivery with the teardown of its target (yield point wm.checked)
     p = core.run_harness(["race", "-n", "10" if not thorough else "100"], timeout=600)
